@@ -331,6 +331,8 @@ package funcGen
 // stateless (no literal of the generator assigns a captured variable: closure:*.captures-read-only, generated for every
 // closure-spec above); constants are returned as they are (closure-spec "return a.Value, nil").
 //@ ghost func nargs(f any) int
+// the statelessness obligation of every function literal verified at its creation site counts for C10 too
+//@ obligation-property .captures-read-only: C10
 
 //@ func NewEmptyStack
 //@   property C10
